@@ -157,6 +157,38 @@ pub fn run(env: &Env, prop: &str, tier: &str) -> i32 {
             rep.viols.push(v);
         }
     }
+    if prop == "C11" {
+        // the premise of "every obtainable value": no safe way to change a value in place
+        let units = vmodel::cf::c11_gate_units();
+        let res = match crate::cf::verdicts(env, &env.work.join("gen/c11gate"), "c11g", &units, false, false) {
+            Ok(r) => r,
+            Err(e) => {
+                eprintln!("INCONCLUSIVE: {e}");
+                return 2;
+            }
+        };
+        let (viols, drift) = crate::cprops::judge_with_drift("C11", &units, &res);
+        rep.evaluations += units.len() as u64;
+        rep.nontrivial += units.len() as u64;
+        *rep.classes.entry("in-place-mutation-attack-rejected".into()).or_insert(0) += units.iter().filter(|u| u.expect == vmodel::cf::Expect::Reject).count() as u64;
+        *rep.classes.entry("in-place-mutation-control-accepted".into()).or_insert(0) += units.iter().filter(|u| u.expect == vmodel::cf::Expect::Accept).count() as u64;
+        if !drift.is_empty() {
+            rep.notes.push(format!("mutation attacks: rejections with an unexpected diagnostic: {drift:?}"));
+        }
+        for v in viols {
+            rep.viols.push(vlib_report::Viol {
+                prop: "C11".into(),
+                decl_id: v.unit.id.clone(),
+                type_name: "T".into(),
+                decl: v.unit.decl.clone(),
+                signature: v.signature.clone(),
+                case: crate::cprops::case_json("C11", &v, false),
+                expected: v.expected.clone(),
+                actual: v.actual.clone(),
+                shrunk: "none".into(),
+            });
+        }
+    }
     if prop == "C12" {
         // the premise of the property: Eq/Ord on a float newtype is only permitted together with `finite`
         let units = vmodel::cf::c12_gate_units();
